@@ -9,7 +9,8 @@ import common, enc, impl
 import segno
 
 TOP = ['theories/Props/C09.v', 'theories/Props/C09_netpbm.v', 'theories/Tie/TieTables.v',
-       'theories/Tie/TieUtils.v', 'theories/Tie/TieUtilsIter.v', 'theories/Tie/TieUtilsVerbose.v']
+       'theories/Tie/TieUtils.v', 'theories/Tie/TieUtilsIter.v', 'theories/Tie/TieUtilsVerbose.v',
+       'theories/Tie/TieWrCommon.v', 'theories/Tie/TieWrText.v', 'theories/Tie/TieWrNetpbm.v']
 RULE = ('symbols of sizes 11..45 (and 177 in thorough) x scale {1,2,3,5,8} x border {0,1,2,4,default} x colour sets forcing every PNG colour type / '
         'bit depth and every PAM tuple type; every implementation file is parsed by the extracted INDEPENDENT reader of its format (PNG incl. CRCs; '
         'IDAT inflated with zlib and handed to the reader as the inflate function) and every pixel is compared with the extracted pixel specification; '
